@@ -22,6 +22,7 @@ func init() {
 			"(R5) every identity table that is appended to is first re-made on every path of the same preparation function (nothing carries over from the previous run). " +
 			"Does not decide: that the separations make numbers collision-free for every geometry (arithmetic over configurations), uniqueness of names end to end.",
 		RuleDocs: []string{
+			"C19.R6 slices.Compact / CompactFunc only on a list sorted by a dominating call; the Lancero configuration step contains a known form of already-listed test",
 			"C19.R1 abstract interpretation of shifts/masks/ors with constant operands in the packer and the four accessors",
 			"C19.R2 index agreement in the processor-construction loop",
 			"C19.R3 structure of the numbering loops (SSA values: same number in both names, increments)",
